@@ -297,8 +297,10 @@ pub fn c11_check(cfg: &WCfg, p: &Probe, cell: Option<&Cell>, sent: &Sent) -> Vec
     let dst = octets(cfg.dst);
     let src = octets(cfg.src);
     let ttl = u32::from(p.ttl.0);
-    let paris = p.flags.contains(Flags::PARIS_CHECKSUM);
-    let dublin6 = cfg.v6 && !paris && p.flags.contains(Flags::DUBLIN_IPV6_PAYLOAD_LENGTH);
+    // which field carries the sequence is prescribed by the *configured* strategy (the cell), not by what the probe's
+    // own flags claim — a probe of a Paris trace that lacks the flag is a defect, not a classic probe
+    let paris = cell.map_or(p.flags.contains(Flags::PARIS_CHECKSUM), |c| c.proto == 'u' && c.strat == 'p');
+    let dublin6 = cfg.v6 && !paris && cell.map_or(p.flags.contains(Flags::DUBLIN_IPV6_PAYLOAD_LENGTH), |c| c.proto == 'u' && c.strat == 'd');
     if cfg.proto == 't' {
         if sent.bind != Some((src.clone(), p.src_port.0)) { bad("c11-tcp-bind", format!("{:?}", sent.bind)); }
         if sent.conn != Some((dst.clone(), p.dest_port.0)) { bad("c11-tcp-connect", format!("{:?}", sent.conn)); }
